@@ -724,7 +724,9 @@ pub fn after_client_frame(sim: &mut Sim, c: usize) {
     let mut due_now: Vec<(u32, u64, Option<bool>)> = vec![];
     for (seq, list) in sess.sev_sent.iter() {
         for e in list.iter() {
-            if e.delivered && e.due_u.is_none() && e.stamp.map(|s| s <= u && (applied_any || s == 0)).unwrap_or(true) {
+            // Due by the harness's own record: every update message sent to this client up to the frame
+            // that flushed the event has been handed to it (not by the tick the library stamped on it).
+            if e.delivered && e.due_u.is_none() && !e.fresh && sess.upd_delivered >= e.upd_before {
                 let target = sim.sev.iter().find(|x| x.seq == *seq).and_then(|x| x.target);
                 let res = target.map(|t| expected.as_ref().map(|x| x.contains_key(&t)).unwrap_or(false));
                 due_now.push((*seq, e.msg_id, res));
